@@ -25,6 +25,11 @@ func leafFields() []*pj.Field {
 	return []*pj.Field{pj.F("a", 1, pj.Int32), pj.F("b", 2, pj.String), pj.F("c", 3, pj.Sint64), pj.F("blob", 4, pj.Bytes)}
 }
 func midFields(leaf string) []*pj.Field {
+	unp := pj.F("unp", 7, pj.Sint32).Repeated()
+	unp.Packed = "false" // one record per element on the wire
+	return append(midFieldsBase(leaf), unp)
+}
+func midFieldsBase(leaf string) []*pj.Field {
 	return []*pj.Field{pj.FM("leaf", 1, leaf), pj.FM("leaves", 2, leaf).Repeated(), pj.FM("m", 3, leaf).MapOf(pj.String), pj.F("x", 4, pj.Int64), pj.F("nums", 5, pj.Int32).Repeated(), pj.F("blob", 6, pj.Bytes), pj.F("tail", 16, pj.Fixed32)}
 }
 func rootFields(mid string) []*pj.Field {
@@ -139,6 +144,7 @@ func fillMid(md protoreflect.MessageDescriptor, n, k int) protoreflect.Message {
 		l.Append(protoreflect.ValueOfMessage(fillLeaf(leafMD, k*10+i)))
 		mp.Set(protoreflect.ValueOfString(fmt.Sprintf("k%d", i)).MapKey(), protoreflect.ValueOfMessage(fillLeaf(leafMD, k*10+5+i)))
 		nums.Append(protoreflect.ValueOfInt32(int32(i*150 - 1)))
+		m.Mutable(f.ByName("unp")).List().Append(protoreflect.ValueOfInt32(int32(70*i - 3)))
 	}
 	if blobSize > 0 {
 		m.Set(f.ByName("blob"), protoreflect.ValueOfBytes(blob(k)))
